@@ -130,6 +130,13 @@ def main():
     else:
         coq = core.coq_phase(pid, extra_allowed=getattr(plugin, "EXTRA_AXIOMS", ()))
         log("coq: %d/%d obligations discharged in %.0fs" % (coq["discharged"], coq["obligations"], coq["wall_s"]))
+        if tier == "thorough" and not coq["failed"] and coq["obligations"]:
+            chk = core.coqchk(pid)
+            coq["coqchk"] = {k: chk.get(k) for k in ("ok", "axioms", "unsafe", "wall_s", "timed_out")}
+            log("coqchk: %s in %.0fs, axioms %s" % ("ok" if chk["ok"] else "FAILED", chk["wall_s"], chk["axioms"] or "<none>"))
+            if not chk["ok"]:
+                coq["failed"].append({"where": "coqchk DashuProps.%s" % pid, "theorem": None, "log": chk["tail"]})
+                coq["discharged"] = 0
     proof_broken = bool(coq["failed"])
     search_tier = "thorough" if proof_broken else tier
 
@@ -287,6 +294,7 @@ def main():
         "coverage": {
             "obligations": max(1, coq["obligations"]),
             "discharged": coq["discharged"],
+            "coqchk": coq.get("coqchk", "not run in this tier (thorough tier re-checks props/<id>.vo and its dependencies with coqchk -o)"),
             "checker_cmd": "make -C coq props/%s.vo  (coqc 8.16.1 full .vo build; Print Assumptions gate; forbidden-construct grep)" % pid,
             "trusted_base": plugin.TRUSTED_BASE,
             "theorems": coq.get("theorems", []),
